@@ -249,6 +249,95 @@ class Campaign:
             self.account(res)
         return results
 
+    # -------------------------------------------------------------- micro-model saturation on the real code
+    def micro_phase(self, name, nruns):
+        """run the real core on a micro-model of TimeWarpMC under many schedules, keep the runs with distinct
+        interleavings of the shared accesses, validate them (concatenated with Reset lines) with TimeWarpTrace"""
+        import hashlib
+        md = self.prepare_model("micro_" + name, 0)
+        self.stats["models"] += 1
+        if not md["ok"]:
+            self.machinery.append({"property": "C10", "what": md["why"], "model": ("micro_" + name, 0)})
+            return
+        r = random.Random(self.seed * 77 + len(name))
+        core = ("Push", "Drain", "Extract", "Flag", "AntiLocal", "Undo", "Exec", "RbBegin", "Restore", "Free", "Ckpt")
+
+        def one(i):
+            c = {"threads": 2, "ckpt": r.choice([1, 2, 3, 0]), "batch": r.choice([1, 1, 2, 64]), "period": r.choice([0, 50, 100000]),
+                 "sseed": self.seed * 100000 + i, "switch": ["1/1", "1/2", "1/3", "1/5"][i % 4], "policy": [0, 0, 2, 4][i % 4 if i % 8 else 3]}
+            tr = os.path.join(md["dir"], "mic_%d.ndjson" % i)
+            rc, out = run_twh(self.bdir, ["--model", md["txt"], "--out", tr] + cfg_args(c))
+            if rc not in (0, 4):
+                return None
+            sig = hashlib.sha1()
+            for line in open(tr):
+                try:
+                    e = json.loads(line)
+                except Exception:
+                    continue
+                if e.get("e") in core:
+                    sig.update(("%s,%s,%s;" % (e.get("thr"), e.get("e"), e.get("m", e.get("lp", "")))).encode())
+            return (sig.hexdigest(), tr, c, rc)
+
+        cfg_rs = [one(i) for i in range(nruns)] if False else vlib.pmap(one, list(range(nruns)))
+        distinct = {}
+        for x in cfg_rs:
+            if x and x[0] not in distinct:
+                distinct[x[0]] = x
+        runs = list(distinct.values())
+        self.stats["micro_runs"] = self.stats.get("micro_runs", 0) + nruns
+        self.stats["micro_distinct"] = self.stats.get("micro_distinct", 0) + len(runs)
+        chunks = [runs[i:i + 40] for i in range(0, len(runs), 40)]
+
+        def val(chunk_i):
+            k, chunk = chunk_i
+            cat = os.path.join(md["dir"], "cat_%d.ndjson" % k)
+            offs = []
+            with open(cat, "w") as f:
+                n = 0
+                for j, (sg, tr, c, rc) in enumerate(chunk):
+                    if j:
+                        f.write('{"n":0,"thr":-1,"e":"Reset"}\n')
+                        n += 1
+                    offs.append((n + 1, tr, c))
+                    for line in open(tr):
+                        f.write(line)
+                        n += 1
+            v = vlib.validate_trace("TimeWarpTrace.tla", "TimeWarpTrace.cfg", cat, ref=md["ref"], timeout=1500)
+            return (v, offs, cat)
+
+        for (v, offs, cat) in vlib.pmap(val, list(enumerate(chunks))):
+            self.stats["parallel_traces"] += len(offs)
+            self.stats["states"] += v["distinct"]
+            if v.get("res"):
+                self.stats["lines"] += v["res"]["reached"]
+            if v["verdict"] == "ok":
+                continue
+            if v["verdict"] == "bad":
+                b = v["res"]["bad"][0]
+                for cand in v["res"]["bad"]:
+                    if cand["p"] in self.own:
+                        b = cand
+                        break
+                which = [o for o in offs if o[0] <= b["at"]][-1]
+                rec = {"property": b["p"], "what": b["w"], "line": b["at"] - which[0] + 1, "cfg": which[2], "model": ("micro_" + name, 0),
+                       "trace": which[1], "md": md}
+                if b["p"] == "C08" and classify_hang(which[1]):
+                    hc = classify_hang(which[1])
+                    f = [f for f in self.kf.get("findings", []) if f.get("key") == hc]
+                    if f:
+                        self.known.append({"finding": f[0], "cfg": which[2], "model": ("micro_" + name, 0)})
+                        continue
+                if b["p"] == "DIV":
+                    self.machinery.append(rec)
+                elif b["p"] in self.own:
+                    self.violations.append(rec)
+                else:
+                    self.other.append(rec)
+            else:
+                self.machinery.append({"property": "?", "what": "micro-model trace %s: %s" % (v["verdict"], (v.get("error") or json.dumps(v.get("res")))[:300]),
+                                       "model": ("micro_" + name, 0)})
+
     # -------------------------------------------------------------- component drivers (same build)
     def driver_phase(self, runs):
         """runs: [{driver, args(trace)->list, spec, cfg, label}]; results are folded into this campaign"""
@@ -358,6 +447,7 @@ class Campaign:
                "known_finding_hits": len(self.known), "other_property_failures": len(self.other),
                "driver_lines_validated": self.stats.get("driver_lines", 0), "conformance_divergences": self.stats.get("divergences", 0),
                "model_checking_runs": self.stats.get("mc", []),
+               "micro_model_runs_on_real_code": self.stats.get("micro_runs", 0), "micro_model_distinct_interleavings": self.stats.get("micro_distinct", 0),
                "exhaustive": False}
         if extra_cov:
             cov.update(extra_cov)
